@@ -71,6 +71,14 @@ TraceBBSubsets == /\ IsEvent("bb_subsets")
             \cup IF_(r.k = "ok" /\ \E i \in 1..(Len(subs)-1) : ~BBLess(subs[i], subs[i+1]), {<<"C18", "subsets-order", r.a>>})
             \cup LET bad == IF r.k = "ok" THEN AdBad(r.ad, r.subs, FALSE) ELSE {} IN IF_(bad # {}, {<<"C18", "subsets-through-adaptor", bad, r.a, r.ad.n>>}))
 
+\* the first subsets of a mask too large to enumerate: the k-th subset in numeric order deposits the bits of k-1 into the mask
+NthSubset(A, k) == LET q == SeqOfSet(A) IN {q[i] : i \in {i \in 1..Len(q) : i <= 20 /\ ((k - 1) \div (2 ^ (i - 1))) % 2 = 1}}
+TraceBBSubsetsHead == /\ IsEvent("bb_subsets_head")
+  /\ LET r == Recs[l]  A == S_(r.a)  want == IF Cardinality(A) >= 7 THEN 70 ELSE 2 ^ Cardinality(A)
+     IN Obs(IF_(r.k # "ok", {<<"C18", "subsets-panicked", r.a>>})
+            \cup IF_(r.k = "ok" /\ (Len(r.head) # want \/ \E i \in 1..Len(r.head) : S_(r.head[i]) # NthSubset(A, i)),
+                     {<<"C18", "subsets-of-a-large-mask", r.a, Len(r.head)>>}))
+
 \* Debug text, as code points: `{:#?}` draws the board (rank 8 first, files a..h, " X" / " ."), `{:?}` is BitBoard(0x................)
 RECURSIVE CatAll(_, _)
 CatAll(qs, i) == IF i > Len(qs) THEN <<>> ELSE qs[i] \o CatAll(qs, i + 1)
@@ -203,7 +211,7 @@ TraceSl == /\ IsEvent("sl")
      IN Obs(IF_(bad # {}, {<<"C05", IF r.kind = 0 THEN "rook-attacks" ELSE "bishop-attacks", s, {r.cases[i] : i \in bad}>>}))
 
 Init == l = 1 /\ nviol = 0
-Next == \/ TraceBBOp \/ TraceBBIter \/ TraceBBSubsets \/ TraceBBFmt \/ TraceBBMacro \/ TraceBBConst \/ TracePM
+Next == \/ TraceBBOp \/ TraceBBIter \/ TraceBBSubsets \/ TraceBBSubsetsHead \/ TraceBBFmt \/ TraceBBMacro \/ TraceBBConst \/ TracePM
         \/ TraceSq \/ TraceNames \/ TraceSqNew \/ TraceOffs \/ TraceFR \/ TraceTxt
         \/ TraceLeap \/ TraceBL \/ TracePQ \/ TraceSl
 Spec == Init /\ [][Next]_vars
